@@ -8,8 +8,9 @@ class C14(WigBedProp):
     pid = "C14"
     impl_timeout = 120
     view_tags = ("R", "FINAL", "PREFIX", "FIRSTOPEN", "FAULT")
-    rule = ("small bigWig / bigBed inputs (1–3 chromosomes) and inputs with > 8 KiB of data per chromosome (so that the nested "
-            "BufWriters spill mid-stream), all option records; for each: the recorded sequence of destination operations, every "
+    rule = ("small bigWig / bigBed inputs (1–3 chromosomes), inputs with > 8 KiB of data per chromosome (so that the nested "
+            "BufWriters spill mid-stream) and inputs of 3–5 chromosomes with 2–7 KiB each (tails below the BufWriter capacity "
+            "that exceed it together), all option records; for each: the recorded sequence of destination operations, every "
             "prefix replayed into an empty buffer and opened with the real readers (rejected / complete / partial: all chromosomes, "
             "every record and every zoom record compared with the complete file), and the write repeated with the k-th destination "
             "operation failing, for every k and operation kind. Non-trivial = every case (each contributes all its prefixes and "
@@ -42,6 +43,23 @@ class C14(WigBedProp):
                     data[nm] = [(i * 9, i * 9 + 4, bbgen.f32bits(float(1 + i % 5))) for i in range(1500)]
                     o["compress"] = 0
                 lines = [bbgen.opt_line(o)] + bbgen.wig_lines(names, sizes, data)
+            medium = (k % 5 in (1, 3))
+            if medium:
+                # several chromosomes whose section data stay below BufWriter's 8 KiB each but exceed it together:
+                # the tails are then handed from one buffered writer to the next when a writer is dropped
+                nch = r.choice([3, 4, 5])
+                names = ["chrA", "chrB", "chrC", "chrD", "chrE"][:nch]
+                sizes = {n: 100000 for n in names}
+                o["compress"] = r.choice([0, 0, 1])
+                o["ips"] = 1024
+                if bed:
+                    data = {n: [(i * 9, i * 9 + 5, "it%d" % (i * 7919 % 1000)) for i in range(r.range(120, 330))] for n in names}
+                    lines = [bbgen.opt_line(o)] + bbgen.bed_lines(names, sizes, data)
+                else:
+                    data = {n: [(i * 9, i * 9 + 4, bbgen.f32bits(float(1 + (i * 7919 + j) % 97))) for i in range(r.range(200, 650))]
+                            for j, n in enumerate(names)}
+                    lines = [bbgen.opt_line(o)] + bbgen.wig_lines(names, sizes, data)
+                tags.add("tails_cross_bufwriter_capacity")
             tags.add("bed" if bed else "wig")
             if big:
                 tags.add("spills_bufwriter")
